@@ -2,5 +2,9 @@ CLAIMED["C01"] = (
  "SSA dominance + who-may-write/call inventory + typestate extraction (static analysis)",
  "Structural necessary conditions decided on every path of the current source: publication of a new balancer is dominated by the nil-error branch of the all-targets health wait; complete writer/caller inventory of the publication points; Target typestate extracted from all stores to Target.state (only a successful probe promotes); probe success = no transport error and status exactly in [200,299] under a timeout context; rotation filled only under State()==healthy. A violation names the construct. Not a proof of the behavioural property: timing and library behaviour are outside.",
  "Trusted: go/types+go/ssa IR, stdlib semantics, the frozen allow-tables printed in evidence. Not decided: elapsed-time clauses.")
-for _p in ["C02","C03","C04","C05","C06","C07","C08","C09","C10","C11","C12","C13","C14","C15","C16","C17","C18","C19","C20"]:
+CLAIMED["C02"] = (
+ "SSA dominance/path ordering + interprocedural lockset analysis + exhaustive response-status inventory (static analysis)",
+ "Decides the program-order skeleton that every interleaving of a redeploy relies on: deploy step order (gate < slot update < install < drain replaced < dispose replaced) on all paths; the probe callback never refreshes the rotation after releasing the deploy's waiters; every access of the routing table is under Router.serviceLock in the right mode (must-hold locksets through the with*Lock wrappers); complete table of proxy-generated status codes. One listed known finding (K1). Does NOT explore interleavings.",
+ "Trusted: go/ssa IR, lock wrappers recognised by structure, frozen status table. Not decided: general interleavings of requests with deploy steps; byte-level response identity.")
+for _p in ["C03","C04","C05","C06","C07","C08","C09","C10","C11","C12","C13","C14","C15","C16","C17","C18","C19","C20"]:
     NOT_APPLICABLE[_p] = "rules designed in DESIGN.md but not yet built in this tree; not claimed until the check exists and passes"
